@@ -291,10 +291,14 @@ func Increment(doc Doc, path string, increment interface{}) (interface{}, error)
 	}
 
 	// increment field
-	field = Add(field, increment)
-	if field == Missing {
+	sum := Add(field, increment)
+	if sum == Missing {
+		if isNumber(field) && isNumber(increment) {
+			return nil, fmt.Errorf("increment result overflows or is not representable")
+		}
 		return nil, fmt.Errorf("incrementee or increment is not a number")
 	}
+	field = sum
 
 	// update field
 	_, err := Put(doc, path, field, false)
@@ -322,10 +326,14 @@ func Multiply(doc Doc, path string, multiplier interface{}) (interface{}, error)
 	}
 
 	// multiply
-	field = Mul(field, multiplier)
-	if field == Missing {
+	product := Mul(field, multiplier)
+	if product == Missing {
+		if isNumber(field) && isNumber(multiplier) {
+			return nil, fmt.Errorf("multiplication result overflows or is not representable")
+		}
 		return nil, fmt.Errorf("multiplicand or multiplier is not a number")
 	}
+	field = product
 
 	// update field
 	_, err := Put(doc, path, field, false)
